@@ -8,7 +8,7 @@ from flow import generate, judge
 from pygen import write_pkg
 from runner import Opts, run_many
 
-LEAF_SRC = ["1", "1.5", '"s"', "True", "None", '(1, "s")', "(1, 2.5, None)", "-1", '("t", 2)', ""]
+LEAF_SRC = ["1", "1.5", '"s"', "True", "None", '(1, "s")', "(1, 2.5, None)", "-1", '("t", 2)', "", "(1, 2)"]
 HEAD = '''from __future__ import annotations
 from typing import Any, Callable, Literal, Optional, Union
 
